@@ -49,7 +49,7 @@ class MinMaxValue(GenericValue):
             flag = "trim"
         elif (
             self._ast_node is not None
-            and self._file._token_of_node(self._ast_node) != new_token
+            and not self._file._same_tokens(self._ast_node, new_token)
         ):
             flag = "update"
         else:
